@@ -167,7 +167,13 @@ class Types:
                 continue
             for b in node.body:
                 if isinstance(b, ast.AnnAssign) and isinstance(b.target, ast.Name) and b.target.id == attr:
-                    return self.ann(m, b.annotation)
+                    t = self.ann(m, b.annotation)
+                    if t == UNK and b.value is not None and not (isinstance(b.value, ast.Call) and astq.callee_name(b.value) == "field"):
+                        t = self._class_attr_type(m, c, attr, b.value)
+                    return t
+                if isinstance(b, ast.Assign) and any(isinstance(t0, ast.Name) and t0.id == attr for t0 in b.targets):
+                    # a table kept in the class body (`nucleobase_heavy_atoms = {...}`): typed from its defining expression
+                    return self._class_attr_type(m, c, attr, b.value)
                 if isinstance(b, ast.FunctionDef) and b.name == attr:
                     fi = self.repo.modules[m].funcs.get(f"{c}.{attr}")
                     if fi is not None and any(d in ("property", "cached_property") for d in fi.decorators):
@@ -178,6 +184,25 @@ class Types:
                 if isinstance(t, tuple):
                     todo.append((t[1], t[2]))
         return UNK
+
+    def _class_attr_type(self, module: str, cls: str, attr: str, e: ast.AST) -> T:
+        key = ("<classattr>", f"{module}.{cls}.{attr}")
+        if key in self._ret:
+            return self._ret[key]
+        if key in self._busy:
+            return UNK
+        self._busy.add(key)
+        try:
+            mod = self.repo.modules[module]
+            fake = ast.FunctionDef(name="<class body>", args=ast.arguments(posonlyargs=[], args=[], vararg=None, kwonlyargs=[], kw_defaults=[], kwarg=None, defaults=[]), body=[ast.Pass()], decorator_list=[], returns=None, lineno=1, col_offset=0)
+            ft = FuncTypes(self, FuncInfo(mod, "<class body>", fake, None))
+            t = ft._refine(e, ft.of(e))
+        except Exception:
+            t = UNK
+        finally:
+            self._busy.discard(key)
+        self._ret[key] = t
+        return t
 
     def ret(self, fi: FuncInfo) -> T:
         key = (fi.module.name, fi.qualname)
@@ -472,8 +497,28 @@ class FuncTypes:
                         if k2.startswith(base + "["):
                             a = join(a, v)
             if a is not None:
-                return (t[0], a)
+                t = (t[0], a)
+        if isinstance(t, tuple) and t[0] == "list" and isinstance(t[1], tuple) and len(t[1]) == 2 and t[1][0] in ("set", "list") and t[1][1] in (UNK, None):
+            # a list of containers built empty and filled through a subscript (`unique.append(set()); unique[-1].add(x)`)
+            a = None
+            for k2, v in self.adds.items():
+                if k2.startswith(key + "["):
+                    a = join(a, v)
+            if a is not None:
+                return (t[0], (t[1][0], a))
         return t
+
+    def _is_instance_member(self, bt: T, attr: str) -> bool:
+        """attr of the class object bt is a method / property / dataclass field (not a value kept in the class body)"""
+        node = self.repo.modules[bt[1]].classes.get(bt[2])
+        if node is None:
+            return True
+        for b in node.body:
+            if isinstance(b, ast.FunctionDef) and b.name == attr:
+                return True
+            if isinstance(b, ast.AnnAssign) and isinstance(b.target, ast.Name) and b.target.id == attr and b.value is None:
+                return True
+        return False
 
     def _has_literal_values(self, name: str) -> bool:
         """some defining expression of the dict `name` already supplies values (their type is part of the declared type)"""
@@ -589,7 +634,42 @@ class FuncTypes:
         cache[id(use)] = r
         return r
 
+    def _loop_variable_type(self, use: ast.Name) -> Optional[T]:
+        """The use lies in the body of a `for` loop whose target binds the name, and nothing else binds it inside that body: every
+        iteration rebinds it before the body runs, so at the use it has the type the loop gives it - whatever the name holds elsewhere."""
+        where, stmt_of = self._layout()
+        ust = stmt_of.get(id(use))
+        if ust is None:
+            return None
+        for a in self._ancestors(ust):
+            if not isinstance(a, (ast.For, ast.AsyncFor)):
+                continue
+            if use.id not in {x.id for x in ast.walk(a.target) if isinstance(x, ast.Name)}:
+                continue
+            in_body = any(n is use for st in a.body for n in ast.walk(st))
+            if not in_body:
+                return None
+            for st in a.body:
+                for n in astq.walk_no_nested(st):
+                    if isinstance(n, ast.Name) and n.id == use.id and isinstance(n.ctx, (ast.Store, ast.Del)):
+                        return None
+                    if isinstance(n, (ast.ListComp, ast.SetComp, ast.DictComp, ast.GeneratorExp)) and any(n2 is use for n2 in ast.walk(n)) and any(use.id in {x.id for x in ast.walk(g.target) if isinstance(x, ast.Name)} for g in n.generators):
+                        return None  # the use reads a comprehension variable of the same name
+            self._busy.add(id(use))
+            saved = self.env
+            try:
+                self.env = {k: v for k, v in saved.items() if k != use.id}
+                self._bind(a.target, elem(self.of(a.iter)))
+                return self.env.get(use.id)
+            finally:
+                self.env = saved
+                self._busy.discard(id(use))
+        return None
+
     def _reaching_type_uncached(self, use: ast.Name) -> Optional[T]:
+        lt = self._loop_variable_type(use)
+        if lt is not None and lt != UNK:
+            return lt
         plain, other = self._def_index()
         if use.id in other:
             return None  # bound in another way somewhere: keep the joined (unknown) reading
@@ -656,7 +736,12 @@ class FuncTypes:
                 return None  # bound later in the fixpoint iteration
             if e.id in self.outer:
                 return self.outer[e.id]
-            return self.ty.const_type(self.fi.module.name, e.id)
+            t = self.ty.const_type(self.fi.module.name, e.id)
+            if t == UNK:
+                ct = self.ty._cls(self.fi.module.name, e.id)
+                if ct != UNK:
+                    return ("clsobj", ct[1], ct[2])  # the class itself: `Residue3D.table`
+            return t
         if isinstance(e, ast.Tuple):
             return ("tuple", tuple(self.of(x) for x in e.elts))
         if isinstance(e, ast.List):
@@ -710,6 +795,9 @@ class FuncTypes:
             return UNK
         if isinstance(e, ast.Attribute):
             bt = self.of(e.value)
+            if isinstance(bt, tuple) and bt[0] == "clsobj":
+                m = self.ty.member(("cls", bt[1], bt[2]), e.attr) if not self._is_instance_member(bt, e.attr) else UNK
+                return self._refine(e, m)
             m = self.ty.member(bt, e.attr)
             return self._refine(e, m)
         if isinstance(e, ast.Subscript):
@@ -874,6 +962,8 @@ class FuncTypes:
             if name == "getAttributeList":
                 return ("list", "str")
             bt = self.of(f.value)
+            if bt is None and self._fix:
+                return None  # the receiver is not typed yet in this round of the fixpoint: bottom, not unknown
             bt = self._refine(f.value, bt)
             if isinstance(bt, tuple):
                 if bt[0] == "dict":
